@@ -521,7 +521,7 @@ class C05(Check):
                     d[1] < len(frame):
                 touched.append(frame[d[1]][1])
         if not touched:
-            touched = sorted(set(c[1] for c in ref_spec))
+            touched = [ref_spec[0][1]] if len(ref_spec) == 1 else ['*']
         label = '+'.join(touched)
         ncells = sum(len(c[2]) for c in ref_spec)
 
